@@ -319,9 +319,9 @@ def denKey (ct : ClassTable) : List (KeyKind × Spec × Spec) → Nat → V → 
   | [], _, _, _ => (.noKey, [])
   | (kind, ks, vs) :: es, i, key, val =>
     let kr : D :=
-      match kind, ks with
-      | .opt _, .lit k => vcond (pyEq key k) key
-      | _, _ => denote ct ks key
+      match optKey kind ks with
+      | some k => vcond (pyEq key k) key
+      | none => denote ct ks key
     match kr.1 with
     | .pass k' =>
       let vr := denote ct vs val
